@@ -191,6 +191,7 @@ func parseExprOf(q string, typ string) (e kvql.Expression, err error, pan string
 type c15Gen struct {
 	memo map[string][]*ref.Expr
 	lean bool // one leaf per type, no unary leaf forms (used for the largest operator count)
+	mid  bool // the rich leaves without the extra float spellings (thorough tier, second-largest operator count)
 }
 
 func (g *c15Gen) leaves(t byte) []*ref.Expr {
@@ -206,6 +207,9 @@ func (g *c15Gen) leaves(t byte) []*ref.Expr {
 	}
 	switch t {
 	case 'N':
+		if g.mid {
+			return []*ref.Expr{ref.N(1), ref.Fl(0.5), ref.Call("int", ref.Value())}
+		}
 		return []*ref.Expr{ref.N(1), ref.Fl(0.5), ref.Call("int", ref.Value()), ref.Fl(2500000.0), ref.Fl(0.00001)}
 	case 'T':
 		return []*ref.Expr{ref.Key(), ref.S("a")}
@@ -360,6 +364,7 @@ func c15Trees(t core.Tier) []c15Tree {
 	}
 	rich := &c15Gen{memo: map[string][]*ref.Expr{}}
 	lean := &c15Gen{memo: map[string][]*ref.Expr{}, lean: true}
+	mid := &c15Gen{memo: map[string][]*ref.Expr{}, mid: true}
 	max := 3
 	if t == core.Thorough {
 		max = 4
@@ -370,6 +375,8 @@ func c15Trees(t core.Tier) []c15Tree {
 		g := rich
 		if n == max {
 			g = lean // the largest operator count uses one leaf per type
+		} else if n == 3 {
+			g = mid // thorough: three operators over the leaves without the extra float spellings
 		}
 		for _, ty := range []byte{'B', 'N', 'T'} {
 			for _, e := range g.trees(ty, n) {
